@@ -179,6 +179,7 @@ def hyp_search(strategy, execute, stats: Stats, *, max_examples, seed, findings=
     from hypothesis import given, settings, HealthCheck, Phase
 
     found_sigs = set()
+    shrink_budget_s = float(os.environ.get("VERIF_SHRINK_BUDGET_S") or 60)
     t_end = (time.time() + deadline_s) if deadline_s else None
     remaining = max_examples
     rounds = 0
@@ -190,6 +191,11 @@ def hyp_search(strategy, execute, stats: Stats, *, max_examples, seed, findings=
         def body(case):
             if t_end and time.time() > t_end:
                 stats.truncated = True
+                return
+            if last_failure and time.time() - last_failure["t0"] > shrink_budget_s \
+                    and case_hash(case) != last_failure["hash"]:
+                # shrinking has had its share of time: every further candidate counts as "does not fail", so that
+                # Hypothesis settles on the smallest failing case found so far (which is executed again normally)
                 return
             outcome = execute(case)
             counted["n"] += 1
@@ -203,6 +209,8 @@ def hyp_search(strategy, execute, stats: Stats, *, max_examples, seed, findings=
                     continue
                 last_failure["case"] = case
                 last_failure["v"] = v
+                last_failure["hash"] = case_hash(case)
+                last_failure.setdefault("t0", time.time())
                 raise _Found(v)
 
         phases = [Phase.explicit, Phase.generate] + ([Phase.shrink] if shrink else [])
